@@ -19,7 +19,7 @@ CHECK = {
             "10 repetitions, free-running under -race",
     "bounds_quick": "7 configurations (one with an OnDelete callback that re-enters the cache) x 2 initial contents; programs: (<=2 calls) x (1 call) over 8 operations, 2x2 "
                     "over 6 operations, 3x1 over 8 operations; all to exhaustion",
-    "bounds_thorough": "10 configurations x 3 initial contents; 2x2 over 8 operations to exhaustion; 3x2 over 5 "
+    "bounds_thorough": "10 configurations x 3 initial contents; 2x2 over 8 operations and 3x1: exhausted when within 300000 executions per scenario, else preemption bound 3; 3x2 over 5 "
                        "operations to preemption bound 3",
     "assumptions": E3_ASSUME,
     "stages": [
